@@ -277,6 +277,8 @@ def contracts():
         cs.append(Table('gauss2', 2, deg, 7 if deg > 6 else 6) if False else Table('gauss2', 2, deg, 7))
     for deg in range(0, 10):
         cs.append(Table('gauss3', 3, deg, 8))
+    from contracts import samplepart
+    cs += samplepart.contracts()
     return cs
 
 
